@@ -395,3 +395,40 @@ def default_cpu(prog, cg):
     if nstores < 1:
         raise AnalysisBroken('DEFAULT-CPU: no store to AsmContext::cpu_list_index found')
     return RuleResult('DEFAULT-CPU', obs, 2, {})
+
+
+def string_loop(prog):
+    """STR-ALL: the loops of the data directives that walk a quoted string character by character (`while (*s != 0)`,
+    `while (token[n] != 0)`) emit every character: their only exit is the end-of-string test in the header (no break / return
+    in the body), so nothing after an embedded `\\0` escape or any other character is dropped."""
+    from nk.cfg import natural_loops
+    obs = []
+    for fn in sorted(prog.fns.values(), key=lambda f: (f.file, f.line)):
+        if not fn.blocks or fn.file not in ('core/directives_data.cpp',):
+            continue
+        k = 0
+        for h, body in sorted(natural_loops(fn).items()):
+            cn = fn.nodes.get(fn.blocks[h].get('cond')) if 'cond' in fn.blocks[h] else None
+            if cn is None:
+                continue
+            own = strip(cn)
+            if own['k'] != 'BinaryOperator' or own.get('op') != '!=' or const(kids(own)[1]) != 0:
+                continue
+            l = strip(kids(own)[0], casts=True)
+            if not ((l['k'] == 'UnaryOperator' and l.get('op') == '*') or l['k'] == 'ArraySubscriptExpr'):
+                continue
+            # the body must emit (a string walk that writes the image)
+            emits = any(callee(fn.nodes[e]) in ('AsmContext::memory_write_inc', 'add_bin8') for b in body for e in fn.blocks[b]['e']
+                        if fn.nodes.get(e) is not None and fn.nodes[e]['k'] in ('CallExpr', 'CXXMemberCallExpr'))
+            if not emits:
+                continue
+            k += 1
+            exits = [(b, s_) for b in body if b != h for s_ in fn.blocks[b]['s'] if s_ is not None and s_ not in body]
+            ok = not exits
+            obs.append(Ob('STR-ALL', fn.file, cn['l'], fn.q, 'string-loop#%d' % k, DISCHARGED if ok else VIOLATED,
+                          '' if ok else 'the character loop `%s` can be left from inside its body (block %d): the rest of the string after that '
+                          'point is not emitted, later data and labels move down' % (show(own), exits[0][0]),
+                          'left only through its end-of-string test', False))
+    if not obs:
+        raise AnalysisBroken('STR-ALL: no emitting string loop in core/directives_data.cpp')
+    return RuleResult('STR-ALL', obs, 1, {})
